@@ -24,6 +24,8 @@ const (
 
 	// ERC20EventTransfer defines the transfer event for ERC20
 	ERC20EventTransfer = "Transfer"
+	// ERC20EventApproval defines the approval event for ERC20
+	ERC20EventApproval = "Approval"
 )
 
 // LogTransfer Event type for Transfer(address from, address to, uint256 value)
